@@ -180,7 +180,8 @@ class Acct:
                 continue
 
             def inl2(exx, callee, info, adt=S[1]):
-                return (callee.get("impl_self", "").split("<")[0] == adt and len(callee["blocks"]) <= 30) or callee.get("kind") == "Closure"
+                return (callee.get("impl_self", "").split("<")[0] == adt and len(callee["blocks"]) <= 30) or callee.get("kind") == "Closure" \
+                    or explore.small_private_helper(callee)
             ex2 = explore.Explorer(F, inline_pred=inl2)
             ex2.interned = ex.interned
             ex2.interned_rev = ex.interned_rev
@@ -331,6 +332,10 @@ class Ctx:
             return linear.atom(IDLEN)
         if v[0] == "arr":
             return linear.const(len(v[1]))
+        if ty:
+            m = re.match(r"^(?:std::option::Option<)?\[u8; (\d+)\]>?$", ty)
+            if m:
+                return linear.const(int(m.group(1)))      # e.g. a named constant stored in a [u8; n] field
         if v[0] == "vec":
             l = self.lin.len_of(v)                 # byte vector built on the path: sum of what was appended
             if not any(isinstance(a, tuple) and a and a[0] == "len" and a[1] == v for a in l[0]):
